@@ -92,9 +92,21 @@ fn into_iri<'a>(s: &'a str, mut prefix: &str) -> Cow<'a, str> {
     }
 }
 
+/// Escapes a string for use inside a JSON string literal (without the surrounding quotes)
+fn json_escape(s: &str) -> String {
+    let quoted = serde_json::to_string(s).expect("strings can always be serialised to JSON");
+    quoted[1..quoted.len() - 1].to_string()
+}
+
 fn value_to_json(value: &DataValue) -> String {
     match value {
-        DataValue::String(s) => format!("\"{}\"", s.replace("\n", "\\n").replace("\"", "\\\"")),
+        DataValue::String(s) => format!("\"{}\"", json_escape(s)),
+        DataValue::Datetime(v) => format!("\"{}\"", v.to_rfc3339()),
+        DataValue::Float(v) if !v.is_finite() => "null".to_string(), //JSON has no representation for NaN or infinity
+        DataValue::List(v) => {
+            let items: Vec<String> = v.iter().map(|item| value_to_json(item)).collect();
+            format!("[{}]", items.join(", "))
+        }
         x => x.to_string(),
     }
 }
@@ -221,7 +233,7 @@ impl<'store> ResultItem<'store, Annotation> {
         ann_out += &config.serialize_context();
         ann_out += ",";
         if let Some(iri) = self.iri(&config.default_annotation_iri) {
-            ann_out += &format!("  \"id\": \"{}\",", iri);
+            ann_out += &format!("  \"id\": \"{}\",", json_escape(&iri));
         } else if config.generate_annotation_iri {
             let id = nanoid!();
             ann_out += &format!(
@@ -306,7 +318,7 @@ impl<'store> ResultItem<'store, Annotation> {
             }
             if !suppress_body_id {
                 if let Some(iri) = self.iri(&config.default_annotation_iri) {
-                    ann_out += &format!(" \"id\": \"{}/body\",", iri);
+                    ann_out += &format!(" \"id\": \"{}/body\",", json_escape(&iri));
                 } else if config.generate_annotation_iri {
                     let id = nanoid!();
                     ann_out += &format!(
@@ -367,13 +379,13 @@ fn output_predicate_datavalue(
         // in conversion from/to RDF.
         format!(
             "\"{}\": {{ \"id\": \"{}\" }}",
-            config.uri_to_namespace(predicate),
-            datavalue
+            json_escape(&config.uri_to_namespace(predicate)),
+            json_escape(&datavalue.to_string())
         )
     } else {
         format!(
             "\"{}\": {}",
-            config.uri_to_namespace(predicate),
+            json_escape(&config.uri_to_namespace(predicate)),
             &value_to_json(datavalue)
         )
     }
@@ -402,10 +414,10 @@ fn output_selector(
                 }
                 ann_out += &format!(
                     "{{ \"source\": \"{}\", \"selector\": {{ \"type\": \"TextPositionSelector\", \"start\": {}, \"end\": {} }} }}",
-                    into_iri(
+                    json_escape(&into_iri(
                         resource.id().expect("resource must have ID"),
                         &config.default_resource_iri
-                    ),
+                    )),
                     textselection.begin(),
                     textselection.end(),
                 );
@@ -425,7 +437,7 @@ fn output_selector(
                     if !ann_out.is_empty() {
                         ann_out.push(',');
                     }
-                    ann_out += &format!("\"{}\"", &template);
+                    ann_out += &format!("\"{}\"", json_escape(&template));
                     if !nested && !second_pass {
                         ann_out += " ]";
                     }
@@ -438,7 +450,10 @@ fn output_selector(
         Selector::AnnotationSelector(a_handle, None) => {
             let annotation = store.annotation(*a_handle).expect("annotation must exist");
             if let Some(iri) = annotation.iri(&config.default_annotation_iri) {
-                ann_out += &format!("{{ \"id\": \"{}\", \"type\": \"Annotation\" }}", iri);
+                ann_out += &format!(
+                    "{{ \"id\": \"{}\", \"type\": \"Annotation\" }}",
+                    json_escape(&iri)
+                );
             } else {
                 ann_out += "{ \"id\": null }";
                 eprintln!("WARNING: Annotation points to an annotation that has no public ID! Unable to serialize to Web Annotatations");
@@ -448,10 +463,10 @@ fn output_selector(
             let resource = store.resource(*res_handle).expect("resource must exist");
             ann_out += &format!(
                 "{{ \"id\": \"{}\", \"type\": \"Text\" }}",
-                into_iri(
+                json_escape(&into_iri(
                     resource.id().expect("resource must have ID"),
                     &config.default_resource_iri
-                ),
+                )),
             );
         }
         Selector::DataSetSelector(set_handle) => {
